@@ -97,7 +97,218 @@ func genResolveOrder() {
 			return true
 		})
 	}
+	l.strList("runUnknown", runUnknownReturns(root.funcDecl("Executor.Run")))
+	l.strList("setupSteps", setupSteps(root))
+	l.strList("fuzzyTrain", fuzzyTrain(root.funcDecl("Executor.setupFuzzyModel")))
 	l.str("wildcardRegexp", strings.ReplaceAll(rx, "t.Task", "‹name›"))
 	l.strList("wildcardMatch", tokens(astDir.funcDecl("Task.WildcardMatch")))
 	l.write()
+}
+
+// runUnknownReturns: what Executor.Run returns from the block that handles a failed GetTask
+// (the first `if <err> != nil` after `<task>, <err> := e.GetTask(call)`): every return
+// statement of the block, named by where the returned error comes from — the GetTask call,
+// or a call made inside the block (`ListTasks`).  Local names do not appear.
+func runUnknownReturns(fd *ast.FuncDecl) []string {
+	var out []string
+	if fd == nil {
+		return out
+	}
+	var block *ast.IfStmt
+	errName := ""
+	ast.Inspect(fd.Body, func(n ast.Node) bool {
+		if block != nil {
+			return false
+		}
+		bs, ok := n.(*ast.BlockStmt)
+		if !ok {
+			return true
+		}
+		for i, st := range bs.List {
+			as, ok := st.(*ast.AssignStmt)
+			if !ok || len(as.Rhs) != 1 || len(as.Lhs) != 2 {
+				continue
+			}
+			c, ok := as.Rhs[0].(*ast.CallExpr)
+			if !ok || !strings.HasSuffix(src(c.Fun), ".GetTask") || i+1 >= len(bs.List) {
+				continue
+			}
+			if is, ok := bs.List[i+1].(*ast.IfStmt); ok && src(is.Cond) == src(as.Lhs[1])+" != nil" {
+				block, errName = is, src(as.Lhs[1])
+				return false
+			}
+		}
+		return true
+	})
+	if block == nil {
+		return out
+	}
+	// origin of the name errName at a given point: shadowed by an if-init inside the block?
+	var walk func(n ast.Node, origin string)
+	walk = func(n ast.Node, origin string) {
+		ast.Inspect(n, func(m ast.Node) bool {
+			switch x := m.(type) {
+			case *ast.IfStmt:
+				if m == n {
+					return true
+				}
+				o := origin
+				if as, ok := x.Init.(*ast.AssignStmt); ok && len(as.Rhs) == 1 {
+					if c, ok := as.Rhs[0].(*ast.CallExpr); ok {
+						for _, lh := range as.Lhs {
+							if src(lh) == errName {
+								if se, ok := c.Fun.(*ast.SelectorExpr); ok {
+									o = se.Sel.Name
+								} else {
+									o = src(c.Fun)
+								}
+							}
+						}
+					}
+				}
+				walk(x.Body, o)
+				if x.Else != nil {
+					walk(x.Else, origin)
+				}
+				return false
+			case *ast.CallExpr:
+				if se, ok := x.Fun.(*ast.SelectorExpr); ok && se.Sel.Name == "ListTasks" {
+					out = append(out, "call:ListTasks")
+				}
+			case *ast.ReturnStmt:
+				if len(x.Results) == 1 {
+					if src(x.Results[0]) == errName {
+						out = append(out, "return:error-of-"+origin)
+					} else {
+						out = append(out, "return:other")
+					}
+				}
+			}
+			return true
+		})
+	}
+	walk(block.Body, "GetTask")
+	return out
+}
+
+// setupSteps: the methods of the executor that Executor.Setup calls, in order.
+func setupSteps(root *pkgFiles) []string {
+	var out []string
+	fd := root.funcDecl("Executor.Setup")
+	if fd == nil {
+		return out
+	}
+	ast.Inspect(fd.Body, func(n ast.Node) bool {
+		if c, ok := n.(*ast.CallExpr); ok {
+			if se, ok := c.Fun.(*ast.SelectorExpr); ok {
+				if id, ok := se.X.(*ast.Ident); ok && fd.Recv != nil && len(fd.Recv.List) == 1 && len(fd.Recv.List[0].Names) == 1 &&
+					id.Name == fd.Recv.List[0].Names[0].Name {
+					out = append(out, se.Sel.Name)
+				}
+			}
+		}
+		return true
+	})
+	return out
+}
+
+// fuzzyTrain: what setupFuzzyModel feeds the spelling model: the ranges it iterates, what
+// is appended to the word list inside them (by field / range variable role), and the call
+// that trains the model.  Locals are named by role (‹key›, ‹value› of the range; ‹words›).
+func fuzzyTrain(fd *ast.FuncDecl) []string {
+	var out []string
+	if fd == nil {
+		return out
+	}
+	words := ""
+	ast.Inspect(fd.Body, func(n ast.Node) bool {
+		switch x := n.(type) {
+		case *ast.IfStmt:
+			if be, ok := x.Cond.(*ast.BinaryExpr); ok {
+				if se, ok := be.X.(*ast.SelectorExpr); ok && src(be.Y) == "nil" && len(x.Body.List) == 1 {
+					if _, ok := x.Body.List[0].(*ast.ReturnStmt); ok {
+						out = append(out, "guard:"+se.Sel.Name+be.Op.String()+"nil:return")
+					}
+				}
+			}
+		case *ast.RangeStmt:
+			k, v := "", ""
+			if x.Key != nil {
+				k = src(x.Key)
+			}
+			if x.Value != nil {
+				v = src(x.Value)
+			}
+			rng := src(x.X)
+			if c, ok := x.X.(*ast.CallExpr); ok {
+				if se, ok := c.Fun.(*ast.SelectorExpr); ok {
+					rng = se.Sel.Name
+					if s2, ok := se.X.(*ast.SelectorExpr); ok {
+						rng = s2.Sel.Name + "." + rng
+					}
+					args := []string{}
+					for _, a := range c.Args {
+						args = append(args, src(a))
+					}
+					rng += "(" + strings.Join(args, ",") + ")"
+				}
+			}
+			role := func(e ast.Expr) string {
+				t := src(e)
+				if k != "" {
+					t = replaceIdent(t, k, "‹key›")
+				}
+				if v != "" {
+					t = replaceIdent(t, v, "‹value›")
+				}
+				if words != "" {
+					t = replaceIdent(t, words, "‹words›")
+				}
+				return t
+			}
+			if words != "" {
+				rng = replaceIdent(rng, words, "‹words›")
+			}
+			out = append(out, "range:"+rng)
+			for _, st := range x.Body.List {
+				if as, ok := st.(*ast.AssignStmt); ok && len(as.Lhs) == 1 && len(as.Rhs) == 1 {
+					if words == "" {
+						words = src(as.Lhs[0])
+					}
+					out = append(out, "  "+role(as.Lhs[0])+" = "+role(as.Rhs[0]))
+				}
+			}
+			return false
+		case *ast.CallExpr:
+			if se, ok := x.Fun.(*ast.SelectorExpr); ok && (se.Sel.Name == "Train" || se.Sel.Name == "SetThreshold") {
+				args := []string{}
+				for _, a := range x.Args {
+					t := src(a)
+					if words != "" {
+						t = replaceIdent(t, words, "‹words›")
+					}
+					args = append(args, t)
+				}
+				out = append(out, "call:"+se.Sel.Name+"("+strings.Join(args, ",")+")")
+			}
+		}
+		return true
+	})
+	return out
+}
+
+// replaceIdent replaces whole-word occurrences of name in s.
+func replaceIdent(s, name, by string) string {
+	var b strings.Builder
+	isW := func(c byte) bool { return c == '_' || c >= '0' && c <= '9' || c >= 'a' && c <= 'z' || c >= 'A' && c <= 'Z' }
+	for i := 0; i < len(s); {
+		if strings.HasPrefix(s[i:], name) && (i == 0 || !isW(s[i-1])) && (i+len(name) == len(s) || !isW(s[i+len(name)])) {
+			b.WriteString(by)
+			i += len(name)
+		} else {
+			b.WriteByte(s[i])
+			i++
+		}
+	}
+	return b.String()
 }
